@@ -20,6 +20,20 @@
 //   R N L d lm_0..lm_{L-1} dist(N*N) mu(L) first(L*d) second(d)   triangulate() alone on a harness-chosen
 //        mean vector / landmark embedding / eigenvalues (exact stream: all operands small dyadics)
 //        out: EMB (N*d) and FD (L*d: landmarks_embedding.first AFTER the call, i.e. after the in-place division)
+//   M method N d ratio seed k dist(N*N)                  method in lmds | lisomap : the REAL embed() body of the
+//        method class (constructed as in mode E) with RECORDING MACROS around the routine calls it makes
+//        (select_landmarks_random, compute_distance_matrix, compute_shortest_distances_matrix,
+//        eigendecomposition_via, triangulate): inside methods/landmark_*.hpp — and only there — these
+//        identifiers are function-like macros that record arguments / results and forward to the real
+//        functions (whose definitions are included BEFORE the macros; #pragma once keeps them).  The exact
+//        streams therefore see what embed() itself hands over, not a repetition of its lines.
+//        out: PERM .. / LM (the landmark list embed() got) /
+//             lmds:    D2 (L*L, result of compute_distance_matrix) MU (L, the mean vector handed to triangulate)
+//                      B (L*L, the matrix handed to eigendecomposition_via) LAM (d) V (L*d, the solver's answer)
+//                      YL (L*d, landmarks_embedding.first as handed to triangulate) TRI (N*d, triangulate's result)
+//             lisomap: G (L*N, result of compute_shortest_distances_matrix) BBT (L*L, handed to the solver)
+//                      LAM (d) U (L*d)
+//             DIM r c / EMB (N*d, what embed() returned)   | EXC <kind>
 // Before each case "C <k>" is printed and flushed (crash attribution), after it "END".
 //
 // Shuffle seeding: with hook H1 (TAPKEE_VERIF_SHUFFLE_HOOK, fixes/H1_random_shuffle_hook.patch) the
@@ -68,29 +82,118 @@ struct c11_seeded_device
 };
 } // namespace std
 #define random_device c11_seeded_device
-#ifdef C11_FULL_API
-#include <tapkee/tapkee.hpp> // tapkee::embed with its dispatch over every method (slow to compile)
-#else
-// quick tier: only the four method classes C11 is about; the harness repeats the five lines of
-// tapkee::embed / DynamicImplementation::embedUsing (check, merge defaults, ImplementationBase
-// constructor, validate(), embed()) for them — see run_api below
+// --- real definitions first (every header below is #pragma once) ---
 #include <tapkee/defines.hpp>
 #include <tapkee/parameters/context.hpp>
 #include <tapkee/parameters/defaults.hpp>
 #include <tapkee/methods/base.hpp>
 #include <tapkee/utils/matrix.hpp>
 #include <tapkee/routines/eigendecomposition.hpp>
-#include <tapkee/methods/multidimensional_scaling.hpp>
-#include <tapkee/methods/landmark_multidimensional_scaling.hpp>
-#include <tapkee/methods/isomap.hpp>
-#include <tapkee/methods/landmark_isomap.hpp>
-#endif
-#include <tapkee/callbacks/precomputed_callbacks.hpp>
-#include <tapkee/callbacks/dummy_callbacks.hpp>
 #include <tapkee/routines/landmarks.hpp>
 #include <tapkee/routines/multidimensional_scaling.hpp>
 #include <tapkee/routines/isomap.hpp>
-#include <tapkee/routines/eigendecomposition.hpp>
+
+// --- recorder: what the embed() bodies of the two landmark methods hand to / get from the routines ---
+namespace c11rec
+{
+using tapkee::DenseMatrix;
+using tapkee::DenseVector;
+using tapkee::IndexType;
+using tapkee::tapkee_internal::EigendecompositionResult;
+using tapkee::tapkee_internal::Landmarks;
+struct rec_t
+{
+    bool on = false;
+    int n_lm = 0, n_d2 = 0, n_geo = 0, n_tri = 0;
+    Landmarks lm;
+    DenseMatrix d2, geo, yl, tri;
+    DenseVector mu, tri_lam;
+    std::vector<DenseMatrix> handed;
+    std::vector<EigendecompositionResult> eig;
+    void reset()
+    {
+        n_lm = n_d2 = n_geo = n_tri = 0;
+        lm.clear();
+        handed.clear();
+        eig.clear();
+        d2.resize(0, 0), geo.resize(0, 0), yl.resize(0, 0), tri.resize(0, 0);
+        mu.resize(0), tri_lam.resize(0);
+    }
+};
+inline rec_t& rec()
+{
+    static rec_t r;
+    return r;
+}
+inline Landmarks got_lm(Landmarks r)
+{
+    if (rec().on)
+        rec().lm = r, rec().n_lm++;
+    return r;
+}
+template <class M> M got_d2(M r)
+{
+    if (rec().on)
+        rec().d2 = DenseMatrix(r), rec().n_d2++;
+    return r;
+}
+template <class M> M got_geo(M r)
+{
+    if (rec().on)
+        rec().geo = DenseMatrix(r), rec().n_geo++;
+    return r;
+}
+template <class M> void handed(const M& m)
+{
+    if (rec().on)
+        rec().handed.push_back(DenseMatrix(m));
+}
+inline EigendecompositionResult got_eig(EigendecompositionResult r)
+{
+    if (rec().on)
+        rec().eig.push_back(r);
+    return r;
+}
+// triangulate(begin, end, callback, landmarks, landmark_distances_squared, landmarks_embedding, target_dimension):
+// the operands are read BEFORE the call (triangulate divides landmarks_embedding.first in place)
+template <class It, class CB>
+void tri_before(It, It, CB, Landmarks&, DenseVector& mu, EigendecompositionResult& e, IndexType)
+{
+    if (rec().on)
+        rec().mu = mu, rec().yl = e.first, rec().tri_lam = e.second;
+}
+inline DenseMatrix got_tri(DenseMatrix r)
+{
+    if (rec().on)
+        rec().tri = r, rec().n_tri++;
+    return r;
+}
+} // namespace c11rec
+
+#define select_landmarks_random(...) ::c11rec::got_lm(select_landmarks_random(__VA_ARGS__))
+#define compute_distance_matrix(...) ::c11rec::got_d2(compute_distance_matrix(__VA_ARGS__))
+#define compute_shortest_distances_matrix(...) ::c11rec::got_geo(compute_shortest_distances_matrix(__VA_ARGS__))
+#define eigendecomposition_via(S, M, D) ::c11rec::got_eig((::c11rec::handed(M), eigendecomposition_via(S, M, D)))
+#define triangulate(...) (::c11rec::tri_before(__VA_ARGS__), ::c11rec::got_tri(triangulate(__VA_ARGS__)))
+#include <tapkee/methods/landmark_multidimensional_scaling.hpp>
+#include <tapkee/methods/landmark_isomap.hpp>
+#undef select_landmarks_random
+#undef compute_distance_matrix
+#undef compute_shortest_distances_matrix
+#undef eigendecomposition_via
+#undef triangulate
+
+#ifdef C11_FULL_API
+#include <tapkee/tapkee.hpp> // tapkee::embed with its dispatch over every method (slow to compile)
+#else
+// quick tier: only the four method classes C11 is about; the harness repeats the five lines of
+// tapkee::embed / DynamicImplementation::embedUsing (check, merge defaults, ImplementationBase
+// constructor, validate(), embed()) for them — see run_api below
+#include <tapkee/methods/multidimensional_scaling.hpp>
+#include <tapkee/methods/isomap.hpp>
+#endif
+#include <tapkee/callbacks/precomputed_callbacks.hpp>
+#include <tapkee/callbacks/dummy_callbacks.hpp>
 #undef random_device
 
 using namespace tapkee;
@@ -207,6 +310,12 @@ static TapkeeOutput run_api(const std::string& m, It begin, It end, K kernel, D 
     try
     {
         parameters.check();
+        // embed.hpp since fix F27; written so that the harness also builds on a tree without it
+        auto check_types = [](auto& ps) {
+            if constexpr (requires { ps.checkTypes(tapkee_internal::defaults); })
+                ps.checkTypes(tapkee_internal::defaults);
+        };
+        check_types(parameters);
         parameters.merge(tapkee_internal::defaults);
         void (*progress_function_ptr)(double) = parameters[progress_function];
         bool (*cancel_function_ptr)() = parameters[cancel_function];
@@ -364,9 +473,12 @@ static const char* run_case(const std::string& line)
         put("EMB", embedding);
         return nullptr;
     }
-    if (mode == "E")
+    if (mode == "E" || mode == "M")
     {
+        const bool recording = mode == "M";
         std::string m = in.word();
+        if (recording && m != "lmds" && m != "lisomap")
+            return "BADCASE";
         IndexType N = in.integer(), d = in.integer();
         double ratio = in.real();
         long long seed = in.integer();
@@ -386,6 +498,11 @@ static const char* run_case(const std::string& line)
                                         : m == "mds"     ? MultidimensionalScaling
                                                          : Isomap;
         seed_shuffle(seed, N);
+        struct rec_guard
+        {
+            explicit rec_guard(bool on) { c11rec::rec().reset(), c11rec::rec().on = on; }
+            ~rec_guard() { c11rec::rec().on = false; }
+        } guard(recording);
         TapkeeOutput out = run_api(m, data.begin(), data.end(), kernel, distance, features,
                                    (method = meth, target_dimension = d, landmark_ratio = ratio,
                                     num_neighbors = k, eigen_method = Dense, check_connectivity = false,
@@ -400,6 +517,42 @@ static const char* run_case(const std::string& line)
         }
         else
             std::printf("PERM -\n");
+        if (recording)
+        {
+            const c11rec::rec_t& r = c11rec::rec();
+            // how often embed() called each routine (1 1 0 1 1 for lmds, 1 0 1 1 0 for lisomap)
+            std::printf("CALLS %d %d %d %d %d\n", r.n_lm, r.n_d2, r.n_geo, (int)r.eig.size(), r.n_tri);
+            std::printf("LM");
+            for (IndexType x : r.lm)
+                std::printf(" %d", (int)x);
+            std::printf("\n");
+            if (m == "lmds")
+            {
+                put("D2", r.d2);
+                putv("MU", r.mu);
+                if (!r.handed.empty())
+                    put("B", r.handed[0]);
+                if (!r.eig.empty())
+                {
+                    putv("LAM", r.eig[0].second);
+                    put("V", r.eig[0].first);
+                }
+                putv("TLAM", r.tri_lam);
+                put("YL", r.yl);
+                put("TRI", r.tri);
+            }
+            else
+            {
+                put("G", r.geo);
+                if (!r.handed.empty())
+                    put("BBT", r.handed[0]);
+                if (!r.eig.empty())
+                {
+                    putv("LAM", r.eig[0].second);
+                    put("U", r.eig[0].first);
+                }
+            }
+        }
         std::printf("DIM %d %d\n", (int)out.embedding.rows(), (int)out.embedding.cols());
         put("EMB", out.embedding);
         return nullptr;
